@@ -102,4 +102,5 @@ func InternalEscapeBytes(b []byte, startLoc int, breakNewLines, strip bool) (res
   ensures [C03] !strip ==> LS(res, len(res))
   ensures [C01] !strip ==> clean(res, len(res))
   ensures [C13] memUnchanged()
+  ensures ref(res) == ref(b) || fresh(res)
 @*/
